@@ -37,8 +37,6 @@ func (w *balWorld) balStep(rt *rapid.T, kinds []string) {
 		return alphaOnly
 	}
 	var pre, post *balState
-	var o interface{ String() string }
-	_ = o
 	switch kind {
 	case "transfer":
 		var from, to []byte
@@ -77,12 +75,12 @@ func (w *balWorld) balStep(rt *rapid.T, kinds []string) {
 		if op.viaActor {
 			op.desc += " via actor"
 		}
-		var oc = (*balOp)(op)
-		_ = oc
+		if !(len(op.signers) == 1 && len(from) == 20 && op.signers[0].ScriptHash().BytesBE() != nil && string(op.signers[0].ScriptHash().BytesBE()) == string(from)) && amt.Sign() != 0 {
+			h.Mark("debit-attempt-signers-not-exactly-from")
+		}
 		p1, p2, out := w.do(op, w.bal, "transfer", from, to, amt, nil)
 		pre, post = p1, p2
-		w.checkC01(pre, post, out, op)
-		w.checkC02(pre, post, out, op)
+		w.check(pre, post, out, op)
 		if b, ok := out.Bool(); out.Halt && ok && b && amt.Sign() != 0 {
 			h.Mark("ok-change")
 		} else {
@@ -95,8 +93,7 @@ func (w *balWorld) balStep(rt *rapid.T, kinds []string) {
 		h.Mark("amount:" + cls)
 		op.desc = "transferX(" + w.name(from) + "->" + w.name(to) + "," + amt.String() + ") signers=" + sig(op.signers, w.names)
 		p1, p2, out := w.do(op, w.bal, "transferX", from, to, amt, []byte("det"))
-		w.checkC01(p1, p2, out, op)
-		w.checkC02(p1, p2, out, op)
+		w.check(p1, p2, out, op)
 		if out.Halt && amt.Sign() != 0 {
 			h.Mark("ok-change")
 		} else {
@@ -109,8 +106,7 @@ func (w *balWorld) balStep(rt *rapid.T, kinds []string) {
 		h.Mark("amount:" + cls)
 		op.desc = "mint(" + w.name(to) + "," + amt.String() + ") signers=" + sig(op.signers, w.names)
 		p1, p2, out := w.do(op, w.bal, "mint", to, amt, []byte("mint-det"))
-		w.checkC01(p1, p2, out, op)
-		w.checkC02(p1, p2, out, op)
+		w.check(p1, p2, out, op)
 		if out.Halt && amt.Sign() != 0 {
 			h.Mark("ok-change")
 		} else {
@@ -123,8 +119,7 @@ func (w *balWorld) balStep(rt *rapid.T, kinds []string) {
 		h.Mark("amount:" + cls)
 		op.desc = "burn(" + w.name(from) + "," + amt.String() + ") signers=" + sig(op.signers, w.names)
 		p1, p2, out := w.do(op, w.bal, "burn", from, amt, []byte("burn-det"))
-		w.checkC01(p1, p2, out, op)
-		w.checkC02(p1, p2, out, op)
+		w.check(p1, p2, out, op)
 		if out.Halt && amt.Sign() != 0 {
 			h.Mark("ok-change")
 		} else {
@@ -142,8 +137,7 @@ func (w *balWorld) balStep(rt *rapid.T, kinds []string) {
 		h.Mark("amount:" + cls)
 		op.desc = "lock(" + w.name(from) + "->" + w.name(to.BytesBE()) + "," + amt.String() + ",until=" + itoa(until) + ") signers=" + sig(op.signers, w.names)
 		p1, p2, out := w.do(op, w.bal, "lock", []byte("lock-det"), from, to, amt, until)
-		w.checkC01(p1, p2, out, op)
-		w.checkC02(p1, p2, out, op)
+		w.check(p1, p2, out, op)
 		if out.Halt {
 			h.Mark("ok-lock")
 			if amt.Sign() != 0 {
@@ -158,8 +152,7 @@ func (w *balWorld) balStep(rt *rapid.T, kinds []string) {
 		op.amount, op.signers = bi(0), alphaOrNot()
 		op.desc = "balance.newEpoch(" + itoa(e) + ") signers=" + sig(op.signers, w.names)
 		p1, p2, out := w.do(op, w.bal, "newEpoch", e)
-		w.checkC01(p1, p2, out, op)
-		w.checkC02(p1, p2, out, op)
+		w.check(p1, p2, out, op)
 		if out.Halt && !sameRaw(p1.raw, p2.raw) {
 			h.Mark("ok-change")
 			h.Mark("unlock")
@@ -169,8 +162,7 @@ func (w *balWorld) balStep(rt *rapid.T, kinds []string) {
 		op.amount, op.signers = bi(0), alphaOrNot()
 		op.desc = "netmap.newEpoch(" + itoa(e) + ") signers=" + sig(op.signers, w.names)
 		p1, p2, out := w.do(op, w.netmap, "newEpoch", e)
-		w.checkC01(p1, p2, out, op)
-		w.checkC02(p1, p2, out, op)
+		w.check(p1, p2, out, op)
 		if out.Halt {
 			w.epoch = e
 			if !sameRaw(p1.raw, p2.raw) {
@@ -195,12 +187,13 @@ func TestC01Stateful(t *testing.T) {
 		n := rapid.SampledFrom([]int{1, 1, 3}).Draw(rt, "n")
 		w := newBalWorld(n, h)
 		defer w.close()
+		w.c01 = true
 		h.Op("committee n=%d", n)
 		// a funded start so that most histories are interesting
 		for i, u := range w.users {
 			op := &balOp{kind: "mint", amount: bi(int64(100 * (i + 1))), signers: []neotest.Signer{w.c.Alphabet}, desc: "mint(" + w.name(u.ScriptHash().BytesBE()) + "," + itoa(int64(100*(i+1))) + ")"}
 			p1, p2, out := w.do(op, w.bal, "mint", u.ScriptHash(), op.amount, []byte("init"))
-			w.checkC01(p1, p2, out, op)
+			w.check(p1, p2, out, op)
 		}
 		kinds := []string{"transfer", "transfer", "transfer", "transferX", "transferX", "mint", "burn", "burn", "lock", "lock", "newEpoch", "tick"}
 		steps := rapid.IntRange(1, 25).Draw(rt, "steps")
